@@ -1,0 +1,72 @@
+//go:build verif
+
+package kgo
+
+// Verification contracts (comments only), read by /verif/govc. Compiled only with -tags verif; no code.
+
+// ---- C40: start offsets resolve as documented ----
+
+// Offset builders: which fields each one sets (At clamps below -2 to -2; every positional builder clears the
+// after-milli mode; WithEpoch normalises negative epochs to -1).
+//@ func (o Offset) At(at int64) (r Offset)
+//@   prop C40
+//@   nopanic
+//@   ensures r.at == ite(at < -2, -2, at) && !r.afterMilli && r.relative == o.relative && r.epoch == o.epoch && r.noReset == o.noReset
+//@ func (o Offset) AtStart() (r Offset)
+//@   prop C40
+//@   nopanic
+//@   ensures r.at == -2 && !r.afterMilli && r.relative == o.relative && r.epoch == o.epoch && r.noReset == o.noReset
+//@ func (o Offset) AtEnd() (r Offset)
+//@   prop C40
+//@   nopanic
+//@   ensures r.at == -1 && !r.afterMilli && r.relative == o.relative && r.epoch == o.epoch && r.noReset == o.noReset
+//@ func (o Offset) AtCommitted() (r Offset)
+//@   prop C40
+//@   nopanic
+//@   ensures r.at == -999 && !r.afterMilli && r.noReset && r.relative == o.relative && r.epoch == o.epoch
+//@ func (o Offset) Relative(n int64) (r Offset)
+//@   prop C40
+//@   nopanic
+//@   ensures r.relative == n && !r.afterMilli && r.at == o.at && r.epoch == o.epoch && r.noReset == o.noReset
+//@ func (o Offset) AfterMilli(millisec int64) (r Offset)
+//@   prop C40
+//@   nopanic
+//@   ensures r.at == millisec && r.afterMilli && r.relative == 0 && r.epoch == -1 && r.noReset == o.noReset
+//@ func (o Offset) WithEpoch(e int32) (r Offset)
+//@   prop C40
+//@   nopanic
+//@   ensures r.epoch == ite(e < 0, -1, e) && !r.afterMilli && r.at == o.at && r.relative == o.relative
+
+// What is listed for each partition: the timestamp itself for after-milli; the log start (-2) whenever a second,
+// end listing is needed to bound the result (exact offsets, start+n, end-n); otherwise the special offset itself.
+// Both requests carry the configured isolation level (so under read_committed "end" is the last stable offset),
+// and every partition of the second request lists the end (-1).
+//@ func (o offsetLoadMap) buildListReq(isolationLevel int8) (r1 *kmsg.ListOffsetsRequest, r2 *kmsg.ListOffsetsRequest)
+//@   prop C40
+//@   site store IsolationLevel#0 assert [isolation-level] val == isolationLevel
+//@   site store Timestamp#0 assert [what-is-listed] val == ite(offset.Offset.afterMilli, offset.Offset.at,
+//@        ite(offset.Offset.at >= 0 || (offset.Offset.at == -2 && offset.Offset.relative > 0) || (offset.Offset.at == -1 && offset.Offset.relative < 0), -2, offset.Offset.at))
+//@   site store Timestamp#1 assert [second-request-lists-the-end] val == -1
+
+// The value of one listing: the v0 format carries it in OldStyleOffsets[0].
+//@ func (cl *Client) listOffsetsForBrokerLoad$4(p *kmsg.ListOffsetsResponseTopicPartition) (r int64)
+//@   prop C40
+//@   nopanic
+//@   pure
+//@   ensures r == ite(len(p.OldStyleOffsets) > 0, p.OldStyleOffsets[0], p.Offset)
+
+// Resolution, at the call that records a successfully resolved partition (the third loaded.add; $poffset0 is the
+// first listing of the partition, $end<k> the end listing read in the k-th arm, arg1 the loadedOffset):
+//@ func (cl *Client) listOffsetsForBrokerLoad(ctx context.Context, broker *broker, load offsetLoadMap, tps *topicsPartitions, results chan<- loadedOffsets)
+//@   prop C40
+//@   site call add#2 assert [after-milli-else-end] loadPart.Offset.afterMilli ==> (($poffset0 == -1 && reached($end0) && arg1.offset == $end0) || ($poffset0 != -1 && !reached($end0) && arg1.offset == $poffset0))
+//@   site call add#2 assert [exact-clamped-to-start-and-end] (!loadPart.Offset.afterMilli && loadPart.Offset.at >= 0) ==>
+//@        arg1.offset == ite(loadPart.Offset.at + loadPart.Offset.relative >= $end1, $end1, ite(loadPart.Offset.at + loadPart.Offset.relative >= $poffset0, loadPart.Offset.at + loadPart.Offset.relative, $poffset0))
+//@   site call add#2 assert [start-relative-capped-at-end] (!loadPart.Offset.afterMilli && loadPart.Offset.at == -2 && loadPart.Offset.relative > 0) ==>
+//@        arg1.offset == ite($poffset0 + loadPart.Offset.relative >= $end2, $end2, $poffset0 + loadPart.Offset.relative)
+//@   site call add#2 assert [end-relative-floored-at-start] (!loadPart.Offset.afterMilli && loadPart.Offset.at == -1 && loadPart.Offset.relative < 0) ==>
+//@        arg1.offset == ite($end3 + loadPart.Offset.relative <= $poffset0, $poffset0, $end3 + loadPart.Offset.relative)
+//@   site call add#2 assert [otherwise-the-listing] (!loadPart.Offset.afterMilli && !(loadPart.Offset.at >= 0) && !(loadPart.Offset.at == -2 && loadPart.Offset.relative > 0) && !(loadPart.Offset.at == -1 && loadPart.Offset.relative < 0)) ==> arg1.offset == $poffset0
+//@   site call add#2 assert [never-negative] arg1.offset >= 0
+//@   site call add#2 assert [for-the-requested-partition] arg1.topic == topic && arg1.partition == partition && arg1.request == loadPart
+//@   site call add#1 assert [negative-is-an-error-not-zero] arg1.err != nil && arg1.partition == partition
